@@ -35,10 +35,10 @@ type Expected struct {
 	Unknown     []string           // unknown option names in encounter order
 	UnknownTok  []int              // argv index of each unknown token
 	HelpCalled  bool
-	Consumed    []bool // per argv index: wholly consumed as option / value / command name / reached terminator
+	Consumed    []bool           // per argv index: wholly consumed as option / value / command name / reached terminator
 	Hits        map[string][]int // "ownerPath\x1fprimaryName" -> argv indices of the tokens that addressed the option
-	LevelAt     []string // per argv index: path of the level at which the token was interpreted ("" = not reached)
-	Decisions   int    // number of greedy lookahead decisions taken (for non-triviality rules)
+	LevelAt     []string         // per argv index: path of the level at which the token was interpreted ("" = not reached)
+	Decisions   int              // number of greedy lookahead decisions taken (for non-triviality rules)
 	Descents    int
 	// Dispatch expectation (valid when !Fail)
 	Disp DispExp
